@@ -76,6 +76,27 @@ def gen_cases(tier, seed):
                 s['seed'] = rng.randrange(1 << 30)
                 s['plan'] = {'faults': [{'at': at, 'phase': ph, 'kind': 'retry500', 'tag': 'FAULT-retry'}]}
                 cases.append(s)
+    # a thread preempted at each statement of the announce / cleanup / task-completion code (until the others have run as far
+    # as they can) while a multipart transfer fails or is cancelled: result() must not be able to return before the abort
+    from .. import windows
+
+    lines = [l for l in windows.candidate_lines() if l[2].startswith(('TransferCoordinator.announce_done', 'TransferCoordinator._run_',
+                                                                      'TransferCoordinator.cancel', 'TransferCoordinator.set_exception',
+                                                                      'Task.__call__', 'SubmissionTask._main', 'SubmissionTask._wait',
+                                                                      'CreateMultipartUploadTask._main', 'CompleteMultipartUploadTask._main'))]
+    for line in lines:
+        for rep in range(3 if quick else 10):
+            base = copy.deepcopy(rng.choice(bases()))
+            base['seed'] = rng.randrange(1 << 30)
+            op = 'UploadPartCopy' if base['transfers'][0]['kind'] == 'copy' else 'UploadPart'
+            site = rng.choice([f't0/s3:{op}:1#0', f't0/s3:{op}:2#0', f't0/s3:{op}:3#0', 't0/s3:CompleteMultipartUpload#0'])
+            if rng.random() < 0.5:
+                base['plan'] = {'faults': [{'at': site, 'phase': rng.choice(['before', 'after']), 'kind': 'exc', 'tag': 'FAULT-w'}]}
+            else:
+                base['plan'] = {'cancel': {'at': site, 'phase': rng.choice(['before', 'after']), 'how': 'future.cancel', 'from': 'event'}}
+            base['yield'] = {'p': 0.0, 'window': {'file': line[0], 'lineno': line[1], 'name': f'{line[0]}:{line[1]}:{line[2]}', 'nth': rng.choice([0, 0, 0, 1, 2, 4]),
+                                                 'action': 'pause', 'wait': 0.2}}
+            cases.append(base)
     # legacy MultipartUploader (S3Transfer.upload_file above the threshold)
     lbase = {'front_end': 'legacy', 'config': dict(multipart_threshold=16, multipart_chunksize=8, max_concurrency=2),
              'transfers': [{'kind': 'upload', 'size': 20}]}
